@@ -340,6 +340,14 @@ func runC09(c *Ctx) {
 	}
 	runDeviceChains(c)
 	runDevicePaths(c)
+	// the raw REQ socket devices are made of: every accepted message leaves through one pipe, once, in order
+	nx := 30
+	if c.Thorough() {
+		nx = 800
+	}
+	for i := 0; i < nx; i++ {
+		runXreqScenario(c, 40)
+	}
 	// TTL option range on all six sockets
 	for _, s := range hopSites {
 		p := s.mk()
